@@ -24,6 +24,33 @@ func (urlTree *URLTree[T]) Lookup(url string) LookupResult[T] {
 	return res
 }
 
+// LookupDeclaredURL returns the value stored for exactly the declared URL pattern: wildcard and
+// path parameter parts of the pattern are matched against the wildcard / parametric children
+// themselves, never against other children, so only the node inserted for that pattern is found.
+func (urlTree *URLTree[T]) LookupDeclaredURL(url string) (*T, bool) {
+	currentNode := urlTree.Root
+	for _, urlPart := range splitURL(url) {
+		var next *Node[T]
+		if urlPart.Value == wildcard {
+			next = currentNode.WildcardChild
+		} else if name, isPathParam := TryExtractPathParameter(urlPart.Value); isPathParam {
+			if currentNode.ParametricChild.Name == name {
+				next = currentNode.ParametricChild.Child
+			}
+		} else if child, found := currentNode.ConstantChildren[urlPart.Value]; found {
+			next = child
+		}
+		if next == nil || next.IsPartOfHost != urlPart.IsPartOfHost {
+			return nil, false
+		}
+		currentNode = next
+	}
+	if !currentNode.hasValue() {
+		return nil, false
+	}
+	return currentNode.Value, true
+}
+
 func lookupNode[T any](urlTree *URLTree[T], url string) lookupNodeResult[T] {
 	splitURL := splitURL(url)
 	currentNode := urlTree.Root
